@@ -680,8 +680,11 @@ def main(chk: Check, replay: dict | None = None) -> int:
                 pipe_inputs.append((pos, payload_for(pos, rand_text(rng, 1, 10))))
     else:
         for i, pos in enumerate(positions):
-            for j in range(5):
-                pipe_inputs.append((pos, payload_for(pos, key_payloads[(i * 5 + j) % len(key_payloads)])))
+            # CR and LF are harmless inside docstrings but break any comment or "…" literal: they expose a NEW raw site
+            for p in ('a\rb', 'a\nb'):
+                pipe_inputs.append((pos, payload_for(pos, p)))
+            for j in range(3):
+                pipe_inputs.append((pos, payload_for(pos, key_payloads[(i * 3 + j) % len(key_payloads)])))
             pipe_inputs.append((pos, payload_for(pos, rng.choice(HOSTILE))))
             pipe_inputs.append((pos, payload_for(pos, rand_text(rng, 1, 8))))
     pipe_inputs = list(dict.fromkeys(p for p in pipe_inputs if p[1] != ""))
